@@ -175,7 +175,7 @@ ChainT(kind, n) ==
             [] kind = "custom" -> [base EXCEPT !.ch = <<sub>>, !.cls = 1, !.meta = 1]
             [] OTHER -> [base EXCEPT !.ch = <<sub>>]
 DepthCase(c) ==
-  LET cfg == [nil |-> c.nil, ns |-> "", haspred |-> FALSE, pk |-> <<>>, pi |-> <<>>, modes |-> <<>>,
+  LET cfg == [nil |-> c.nil, ns |-> "", haspred |-> c.pred, pk |-> <<"leaf">>, pi |-> <<>>, modes |-> <<>>,
               reg |-> << <<"", 1>> >>, maxdepth |-> 4]
       exp == IF c.delta = 99 THEN Err("Recursion") ELSE Flatten(ChainT(c.kind, 4 + c.delta), cfg)
   IN Concat([j \in DOMAIN c.outs |->
@@ -478,7 +478,9 @@ HeapCase(c) ==
      Chk(st.a \o ":no-unexpected-error", st.err = "") \o
      (IF Has(st, "leaves_retained") THEN Chk(st.a \o ":no-reference-to-leaves", st.leaves_retained = 0) ELSE <<>>)])
 HeapGc(c) == Chk("cycles-through-metadata-collected", c.metadata_cycles_collected = 3 /\ c.factory_cycle_collected) \o
-             Chk("no-refcount-leak", c.class_refcount_delta = 0)
+             Chk("no-refcount-leak", c.class_refcount_delta = 0) \o
+             Chk("treespec-keeps-its-registration-alive", c.registration_alive_while_spec_lives /\ c.spec_works_after_unregister_and_gc) \o
+             Chk("registration-released-with-the-treespec", c.registration_released_with_spec)
 
 \* the same tree under two option sets
 XOptCase(c) ==
